@@ -441,6 +441,7 @@ func c19NewNet(w *c19World, pools [][]int, skewMs []int, bypassDedup, poolFirst 
 			return net, fmt.Errorf("node %d: %w", j, err)
 		}
 		n.bc = bc
+		net.cfg = bc.GetConfig() // with the defaults NewBlockchain filled in
 		go bc.Run()
 		if bc.BlockHeight() != w.baseH {
 			return net, fmt.Errorf("node %d: opened at height %d, want %d", j, bc.BlockHeight(), w.baseH)
@@ -660,6 +661,15 @@ func (net *c19Net) drain(n *c19Node) error {
 			net.committed++
 			b := o.blk
 			net.logf("   n%d COMMITS block %d blk:%s (%d tx) -> own ledger: %v", n.idx, b.Index, b.Hash().StringLE()[:8], len(b.Transactions), o.err)
+			// The protocol limits bind every block consensus produces (config: "MaxBlockSize is the maximum block
+			// size in bytes", MaxTransactionsPerBlock, MaxBlockSystemFee).
+			var fee int64
+			for _, tx := range b.Transactions {
+				fee += tx.SystemFee
+			}
+			if sz := io.GetVarSize(b); len(b.Transactions) > int(net.cfg.MaxTransactionsPerBlock) || (net.cfg.MaxBlockSize > 0 && sz > int(net.cfg.MaxBlockSize)) || (net.cfg.MaxBlockSystemFee > 0 && fee > net.cfg.MaxBlockSystemFee) {
+				return net.fail("node %d committed block %d with %d transactions, %d bytes, system fee %d: beyond the protocol limits (MaxTransactionsPerBlock %d, MaxBlockSize %d, MaxBlockSystemFee %d)", n.idx, b.Index, len(b.Transactions), sz, fee, net.cfg.MaxTransactionsPerBlock, net.cfg.MaxBlockSize, net.cfg.MaxBlockSystemFee)
+			}
 			if o.err != nil {
 				if !errors.Is(o.err, core.ErrAlreadyExists) {
 					return net.fail("node %d: the block its consensus committed (index %d, %s) is rejected by its own ledger: %v", n.idx, b.Index, b.Hash().StringLE(), o.err)
